@@ -163,9 +163,12 @@ def applyBin (k : BinKind) (l r : Val) : OpRes :=
   | .gt => .ok (.bool (l.gt r))
   | .ge => .ok (.bool (l.ge r))
 
-def repeatStr (s : String) : Nat → String
+def repeatStrAux (s : String) : Nat → String
   | 0 => ""
-  | n+1 => s ++ repeatStr s n
+  | n+1 => s ++ repeatStrAux s n
+
+/-- `String::repeat` (the empty string repeats to itself without looping) -/
+def repeatStr (s : String) (n : Nat) : String := if s.isEmpty then "" else repeatStrAux s n
 
 /-- `VM::binary_op` (after popping `right` then `left`) -/
 def binaryOp (k : BinKind) (l r : Val) : OpRes :=
